@@ -87,10 +87,15 @@ def cases(ctx):
     yield {"x": ("E",), "xn": "frac", "xl": "sing", "y": ("W",), "yn": "frac", "yl": "sing", "same": False}
     for i in range(ctx.n(2, 12)):
         yield {"mixed": True, "r": rng.choice([1.0, 1.5]), "side": rng.choice([1.7, 2.2]), "op": "&|-"[i % 3]}
+    for i in range(ctx.n(6, 80)):
+        # curved boundary cut into pieces (long enough not to be degree-reduced) vs the uncut description
+        yield {"curvedsplit": True, "nd": rng.choice([4, 8, 16]), "r": rng.choice([1.0, 2.5]),
+               "idx": [rng.randrange(4) for _ in range(2)], "nodes": [rng.choice([0.25, 0.375, 0.7, 1 / 3, 0.6]) for _ in range(2)],
+               "rot": rng.randrange(4)}
 
 
 def nontrivial(case):
-    if case.get("mixed"):
+    if case.get("mixed") or case.get("curvedsplit"):
         return True
     return case["x"][0] not in "EW" and case["y"][0] not in "EW"
 
@@ -121,6 +126,26 @@ def check(ctx, case):
         r2 = I.outcome(lambda: R == S)
         if r2[0] != "ok" or r2[1] is not False:
             fails.append(Fail(kind="O", what="== on mixed-degree vs polygon does not return False", impl=r2))
+        return fails
+    if case.get("curvedsplit"):
+        S0 = I.Primitive.circle(case["r"], (0, 0), case["nd"])
+        J0 = S0.jordans[0]
+        segs = [[tuple(p) for p in s.ctrlpoints] for s in J0.segments]
+        k = case["rot"]
+        J1 = I.JordanCurve.from_ctrlpoints(segs[k:] + segs[:k])            # other start vertex
+        pairs = sorted(set(zip(case["idx"], case["nodes"])))
+        J1.split([p[0] for p in pairs], [p[1] for p in pairs])             # redundant vertices on curved pieces
+        ctx.count("curved-split")
+        if any(sg.degree != 2 for sg in J1.segments):
+            return fails
+        # (the shape-level == additionally wants bit-identical float areas: known finding F9, not asked here)
+        for name, f in (("cut == uncut", lambda: J1 == J0), ("uncut == cut", lambda: J0 == J1)):
+            r = I.outcome(f)
+            if r != ("ok", True):
+                fails.append(Fail(kind="O", what="== depends on how a curved boundary is cut into pieces: %s" % name, impl=r))
+        r = I.outcome(lambda: J1 != J0)
+        if r != ("ok", False):
+            fails.append(Fail(kind="O", what="!= on two descriptions of the same curved curve", impl=r))
         return fails
     x, y = case["x"], case["y"]
     X, Y = I.mk_shape(x, case["xn"]), I.mk_shape(y, case["yn"])
